@@ -128,7 +128,8 @@ def after_scan(ex, idx, op, obs, C, raw, pre_cache, pre_class):
         except (KeyError, TypeError):
             pass
     ex.last_scan_tree = O.digest([w.tree_digest(), w.cli_excludes, w.yml_patterns, w.gi_patterns])
-    monitor_c07(ex, idx, C, raw, "scan")
+    if not (pending and pending.get("relaxed")):
+        monitor_c07(ex, idx, C, raw, "scan")   # (a report built from undetectably rotted entries is not codelimit's doing)
 
     # ---- cache reuse accounting (C09) ---------------------------------------
     reusable = {}
@@ -153,6 +154,19 @@ def after_scan(ex, idx, op, obs, C, raw, pre_cache, pre_class):
                         for p, e in C["codebase"]["files"].items()):
         ex.probe("cache_miss_changed")
 
+    relaxed = bool(pending and pending.get("relaxed"))
+    if relaxed:
+        # undetectable same-shape bit rot: completion, valid JSON and the markers are what is owed
+        missing = [m for m in MARKERS if not os.path.exists(os.path.join(w.cache_dir, m))]
+        if missing:
+            ex.add(violation("C10", "markers_restored", "after %s the scan left the cache directory without %s" % (pending, missing), idx, pending=pending))
+        ex.probe("c10_relaxed_checked")
+        ex.pending_fault = None
+        ex.cache_owner = None          # what it holds may be wrong by no fault of the scan
+        ex.last_scan_report = None
+        # leave the world clean for the rest of the history
+        w.op_cache_delete("dir")
+        return
     # ---- equals the from-scratch report (C09 / C10 / C06) --------------------
     F = None
     if wl in ("C09", "C10", "C06") or pending:
